@@ -11,6 +11,8 @@ change_status.
      in-flight queue in each direction; every scheduling decision is a solver-chosen index, the
      ClOrdID root, quantities and the fill size are symbolic.
 """
+from math import nan
+
 from asyncfix import FIXMessage, FMsg, FTag
 from asyncfix.errors import FIXError
 from asyncfix.protocol.common import FExecType, FOrdStatus
@@ -347,11 +349,54 @@ def h_reject_step(I):
     return [str(o.status)]
 
 
+BASES = (1.2e-06, 0.01, 1.0, 100.0, 123456.78)
+
+
+def h_replace_delta(I):
+    """Every price / quantity change the floats can tell apart is a change: the replace request of
+    a live order builds, carries exactly the requested values, and after the exchange's REPLACED
+    report the order holds them.  Magnitudes from 1e-6 to 1e5, steps from 5 down to 1e-12."""
+    field = I.choice("field", 3)  # price / qty / both
+    b = BASES[I.choice("base", len(BASES))]
+    k = (1, 2, 5)[I.choice("mantissa", 3)]
+    e = I.choice("exponent", 13)
+    sign = I.choice("sign", 2)
+
+    def body():
+        new = b + k * 10.0 ** -e * (1 if sign == 0 else -1)
+        if new <= 0 or new == b:
+            return ["no distinct positive value"]
+        p0, q0 = (b if field != 1 else 100.0), (b if field != 0 else 10.0)
+        p1, q1 = (new if field != 1 else p0), (new if field != 0 else q0)
+        o = FIXNewOrderSingle("ORD", "T", "1", p0, q0)
+        o.new_req()
+        ex = Exchange()
+        ex.recv(dict(kind="new", clord=o.clord_id, qty=q0, price=p0))
+        ex.base = "0"
+        o.process_execution_report(ex.report("0", o.clord_id))
+        I.check(o.can_replace(), "acknowledged order cannot be replaced")
+        used = [o.clord_id]
+        r = try_request(I, o, "replace", used, p1 if field != 1 else nan, q1 if field != 0 else nan)
+        I.check(r is not None, "replace request refused although the order can be replaced and the value differs")
+        I.check(r["price"] == p1 and r["qty"] == q1, "replace request does not carry the requested price / quantity")
+        ex.qty, ex.price, old = q1, p1, ex.live_id
+        ex.live_id = r["clord"]
+        o.process_execution_report(ex.report("5", r["clord"], orig=old, replaced=True))
+        I.check(float(o.price) == p1 and float(o.qty) == q1, "price / quantity differs from the exchange's after REPLACED")
+        I.check(o.status == ST.NEW, "status after REPLACED")
+        I.goal("replaced")
+        return [repr(p1), repr(q1)]
+    return I.untraced(body)
+
+
 def cells(tier):
     quick = tier == "quick"
     out = [Cell("clord-chain", h_clord, dict(root="symbolic 1..4 printable chars not ending in --<digits>", counter="symbolic in [0,999]"), goals=["chained"]),
            Cell("reject-step", h_reject_step, dict(status="new / partially filled / suspended", request="cancel / replace", reported_status="every member of the status enum",
                                                    root="symbolic 1..2 letters", counter="symbolic"), goals=["request-after-reject"])]
+    out.append(Cell("replace-delta", h_replace_delta,
+                    dict(field="price / quantity / both", base=list(BASES), step="+-{1,2,5} x 10^-e, e in 0..12 (all solver-chosen structural values; body concrete)"),
+                    goals=["replaced"]))
     depth = 8 if quick else 10
     mv = "deliver request / deliver report / exchange: ack, reject, partial fill, full fill, expire, pending-ack, accept, reject request / client: cancel, replace"
     out.append(Cell("race/new-rejected", lambda I: h_race(I, depth, ["deliver-request", "x:reject"]),
@@ -368,7 +413,7 @@ def cells(tier):
 
 
 ASSUMPTIONS = ["the exchange model (class Exchange in this file) follows the FIX 4.4 order state change matrices: OrdStatus precedence (pending cancel / replace over fills), too-late requests are rejected with the final OrdStatus, fills during a pending request are reported under the live ClOrdID",
-               "prices and quantities are integers rendered through float() (fractional quantities are outside the claim: str(float) is C code)",
+               "prices and quantities in the race cells are integers rendered through float(); fractional values and tiny steps are covered by the replace-delta cell on a grid of magnitudes and steps (str(float) is C code, so values are concrete per path)",
                "TransactTime comes from the stubbed clock"]
 STUBS = ["FIXNewOrderSingle.current_datetime -> fixed"]
 OUTSIDE = ["interleavings longer than the stated depth", "suspend / resume, done-for-day, stopped reports in the race cells (covered by C16's transition function check)", "more than one order"]
